@@ -1,6 +1,8 @@
 package engine
 
 import (
+	"strings"
+
 	"github.com/uber-go/gopatch/internal/zzverif/nd"
 )
 
@@ -38,6 +40,22 @@ var c08Misplaced = []faCase{
 	{name: "func-name",
 		patch: "@@\nvar v expression\n@@\n-mk(v)\n+run(func() { v: for {} })\n",
 		minus: "package p\n\nvar a = ⟦mk(«v:x.y»)⟧\n"},
+	// well-formed patches whose '+' side, or whose captured code, contains nodes with absent optional children
+	{name: "wellformed-captured-funclit",
+		patch: "@@\nvar f expression\n@@\n-schedule(f)\n+scheduleNow(f)\n",
+		minus: "package p\n\nvar a = ⟦schedule(«f:func() {\n\tfor {\n\t\tif x {\n\t\t\tbreak\n\t\t}\n\t\tcontinue\n\t}\n\tswitch {\n\tcase y:\n\t\tfallthrough\n\tdefault:\n\t\treturn\n\t}\n\tselect {}\n\t_ = s[:]\n\tvar c chan<- int\n\t_, _ = c, struct{}{}\n\tgoto done\ndone:\n}»)⟧\n"},
+	{name: "wellformed-plus-bare-branches",
+		patch: "@@\n@@\n-stop()\n+if done {\n+\tbreak\n+}\n+continue\n",
+		minus: "package p\n\nfunc f() {\n\tfor {\n\t\t⟦stop()⟧\n\t}\n}\n"},
+	{name: "wellformed-plus-empty-for-return",
+		patch: "@@\n@@\n-spin()\n+for {\n+}\n+return\n",
+		minus: "package p\n\nfunc f() {\n\t⟦spin()⟧\n}\n"},
+	{name: "wellformed-plus-switch-fallthrough",
+		patch: "@@\nvar x expression\n@@\n-pick(x)\n+switch {\n+case x:\n+\tfallthrough\n+default:\n+}\n",
+		minus: "package p\n\nfunc f() {\n\t⟦pick(«x:ok»)⟧\n}\n"},
+	{name: "wellformed-plus-slices-and-types",
+		patch: "@@\nvar x expression\n@@\n-view(x)\n+wrap(func() (chan<- int, interface{}) { _ = x[:]; return nil, struct{}{} })\n",
+		minus: "package p\n\nvar a = ⟦view(«x:buf»)⟧\n"},
 	{name: "ident-mv-everywhere-is-fine", idents: []string{"v"},
 		patch: "@@\nvar v identifier\n@@\n-foo(v)\n+x.v\n",
 		minus: "package p\n\nvar a = ⟦foo(«v:name»)⟧\n"},
@@ -58,5 +76,8 @@ func VerifC08Misplaced() {
 	}
 	out, err := ch.Replace(d, NewChangelog())
 	nd.Assert((out == nil) != (err == nil), c.name+": Replace must return a file or an error")
+	if strings.HasPrefix(c.name, "wellformed") {
+		nd.Assert(err == nil, c.name+": a well-formed patch failed on its own instance")
+	}
 	nd.Reach("done")
 }
